@@ -295,7 +295,8 @@ func (m *Model) Predict(w WS, o BuildOpts) Prediction {
 // Commit updates the model after a build, given which targets were observed to
 // start (S line) and to end (E line) in the trace and whether grog exited normally.
 func (m *Model) Commit(w WS, o BuildOpts, p Prediction, started, ended map[string]bool, interrupted bool) {
-	cancelled := interrupted || (o.FailFast && p.AnyFail)
+	// under --fail-fast a possible failure (a MAY target that fails if it runs) is a possible cancellation of everybody else
+	cancelled := interrupted || (o.FailFast && (p.AnyFail || p.Uncertain))
 	for _, l := range p.Selected {
 		t := w.Target(l)
 		k := p.Keys[l]
